@@ -27,15 +27,15 @@ def shards(tier, seed):
     out.append({"name": "pitch-text", "kind": "pitch", "k": 2 if tier == "quick" else 4, "weight": 3})
     if tier == "quick":
         for L in T.LETTERS:
-            out.append({"name": "order-" + L, "kind": "order", "letter": L, "names": "pure2", "octaves": [3, 4, 5], "weight": 4})
+            out.append({"name": "order-" + L, "kind": "order", "letter": L, "names": "pure2", "octaves": [0, 3, 4, 5, 9], "weight": 4})
     else:
         for L in T.LETTERS:
             for half in (0, 1):
                 out.append({"name": "order-%s%d" % (L, half), "kind": "order", "letter": L, "names": "all3", "half": half,
                             "octaves": list(range(10)), "weight": 12})
-    sps = [440, 415, 432, 466.16, 392] if tier == "quick" else [380 + 0.5 * i for i in range(201)]
-    step = 10 if tier == "quick" else 1
-    n = 4 if tier == "quick" else 16
+    sps = [440, 415, 432, 466.16, 392, 380, 480, 443.5, 427.25, 452, 400, 409.9, 436, 445, 470] if tier == "quick" else [380 + 0.5 * i for i in range(201)]
+    step = 5 if tier == "quick" else 1
+    n = 8 if tier == "quick" else 16
     for i in range(n):
         out.append({"name": "hertz-%d" % i, "kind": "hertz", "sps": sps[i::n], "cent_step": step, "weight": 5})
     out.append({"name": "bounds-copy", "kind": "bounds", "weight": 2})
